@@ -275,8 +275,6 @@ func (s *C17Spec) expectation(c *Ctx, tape []byte) cliExpect {
 		switch {
 		case cfg.Length < 1 || len(m.A) == 0:
 			honour = "no"
-		case m.Emptied > 0:
-			honour = "dontcare"
 		default:
 			p := ratToFloat(m.SuccessProb())
 			if p == 0 {
